@@ -9,6 +9,7 @@ import (
 	"encoding/hex"
 	"fmt"
 	"math/big"
+	"strings"
 	"sync"
 
 	"github.com/artela-network/artela-evm/vm"
@@ -139,6 +140,30 @@ func aspectCodeFor(id byte) []byte {
 	return code
 }
 
+// hostRec: the host's scripted answers and its log for ONE execution, carried by that execution's context.Context, so that
+// executions running at the same time do not share them (the package-level script/log serve the sequential layers)
+type hostRec struct {
+	log  []string
+	ret  []byte
+	fail map[string]error
+}
+type hostRecKey struct{}
+
+func recOf(ctx context.Context) *hostRec {
+	if ctx == nil {
+		return nil
+	}
+	r, _ := ctx.Value(hostRecKey{}).(*hostRec)
+	return r
+}
+
+func (h *hostRec) logStr() string {
+	if len(h.log) == 0 {
+		return "none"
+	}
+	return strings.ReplaceAll(strings.Join(h.log, "+"), " ", "_")
+}
+
 func initHost() {
 	hostMu.Lock()
 	defer hostMu.Unlock()
@@ -150,6 +175,13 @@ func initHost() {
 	atypes.IsCommit = func(context.Context) bool { return true }
 	atypes.InitRuntimePool(context.Background(), quietLogger{}, 4096, 16)
 	atypes.GetAspectContext = func(ctx context.Context, id common.Address, key string) ([]byte, error) {
+		if rec := recOf(ctx); rec != nil {
+			rec.log = append(rec.log, "get "+hexAddr(id)+" "+hexBytes([]byte(key)))
+			if e := rec.fail["get"]; e != nil {
+				return nil, e
+			}
+			return rec.ret, nil
+		}
 		hostCtxLog = append(hostCtxLog, "get "+hexAddr(id)+" "+hexBytes([]byte(key)))
 		if e := hostCtxFail["get"]; e != nil {
 			return nil, e
@@ -157,10 +189,21 @@ func initHost() {
 		return hostCtxRet, nil
 	}
 	atypes.SetAspectContext = func(ctx context.Context, id common.Address, key string, value []byte) error {
+		if rec := recOf(ctx); rec != nil {
+			rec.log = append(rec.log, "set "+hexAddr(id)+" "+hexBytes([]byte(key))+" "+hexBytes(value))
+			return rec.fail["set"]
+		}
 		hostCtxLog = append(hostCtxLog, "set "+hexAddr(id)+" "+hexBytes([]byte(key))+" "+hexBytes(value))
 		return hostCtxFail["set"]
 	}
 	atypes.JITSenderAspectByContext = func(ctx context.Context, h common.Hash) (common.Address, error) {
+		if rec := recOf(ctx); rec != nil {
+			rec.log = append(rec.log, "jit "+hexBytes(h[:]))
+			if e := rec.fail["jit"]; e != nil {
+				return common.Address{}, e
+			}
+			return common.BytesToAddress(rec.ret), nil
+		}
 		hostCtxLog = append(hostCtxLog, "jit "+hexBytes(h[:]))
 		if e := hostCtxFail["jit"]; e != nil {
 			return common.Address{}, e
